@@ -33,6 +33,11 @@ type Stats struct {
 	Classes     map[string]int64 `json:"workload_classes"`
 	// Digest folds whatever a run wants compared by the determinism re-check.
 	Digest uint64 `json:"-"`
+	// VerdictOrderDependent is set by a run whose verdict on a defective tree may
+	// depend on Go's map iteration order inside the code under test (no seam
+	// controls it); the determinism re-check then compares everything but the
+	// verdict of that run.
+	VerdictOrderDependent bool `json:"-"`
 }
 
 const distinctCap = 3000000
